@@ -24,6 +24,8 @@ structure CompleteRN (g : Grammar) (t : Table) : Prop where
     g.isAug q = false
   /-- STOP is a lookahead only -/
   noShiftStop : ∀ s s', Action.shift s' ∉ t.cell s 0
+  /-- accept only on STOP -/
+  acceptStop : ∀ s a, Action.accept ∈ t.cell s a → a = 0
 
 theorem filter_isShift_two {l : List Action} {s1 s2 : Nat} (h1 : Action.shift s1 ∈ l) (h2 : Action.shift s2 ∈ l)
     (hlen : (l.filter isShift).length ≤ 1) : s1 = s2 := by
@@ -41,7 +43,7 @@ theorem Cert.completeRN_sound (g : Grammar) (t : Table) (h : Cert.completeRN g t
     CompleteRN g t ∧ GWF g := by
   unfold Cert.completeRN at h
   simp only [Bool.and_eq_true] at h
-  obtain ⟨⟨⟨⟨⟨⟨⟨hF, hC⟩, hT⟩, hR⟩, hG⟩, hD⟩, hL⟩, hNS⟩ := h
+  obtain ⟨⟨⟨⟨⟨⟨⟨⟨hF, hC⟩, hT⟩, hR⟩, hG⟩, hD⟩, hL⟩, hNS⟩, hAS⟩ := h
   unfold Cert.grammarOk at hG
   simp only [Bool.and_eq_true] at hG
   obtain ⟨⟨⟨hG1, hG2⟩, hG3⟩, hG4⟩ := hG
@@ -77,7 +79,7 @@ theorem Cert.completeRN_sound (g : Grammar) (t : Table) (h : Cert.completeRN g t
       rcases this with h0 | h0
       · exact h0
       · exact absurd hlhs h0
-  refine ⟨⟨?_, ?_, ?_, ?_, ?_, ?_, ?_, ?_⟩, gwf⟩
+  refine ⟨⟨?_, ?_, ?_, ?_, ?_, ?_, ?_, ?_, ?_⟩, gwf⟩
   · -- closure
     intro s p d a pr B ⟨st, hst, it, hit, hp, hd, ha⟩ hpr hB hBnt q qr hq hlhs b hf
     have := forStates_spec hC hst
@@ -191,6 +193,12 @@ theorem Cert.completeRN_sound (g : Grammar) (t : Table) (h : Cert.completeRN g t
     rw [List.all_eq_true] at this
     have := this _ hm'
     simp at this
+  · -- acceptStop
+    intro s a hm
+    obtain ⟨st, hst, hm'⟩ := mem_cell hm
+    have := forStates_spec hAS hst
+    have := forCells_spec this hm'
+    simpa using this
 
 /-- transitions of a certified table are functions -/
 theorem CompleteRN.trans_det {g : Grammar} {t : Table} (hc : CompleteRN g t) {s X s1 s2 : Nat}
